@@ -448,7 +448,9 @@ class CSSStyleDeclaration(CSS2Properties, cssutils.util.Base2):
             val = item.value
             if isinstance(val, Property):
                 if (normalize and nname == val.name) or name == val.literalname:
-                    if val.priority:
+                    # (an unknown priority like "!ie", kept in log mode, is
+                    # not "!important")
+                    if val.priority == 'important':
                         return val
                     elif not found:
                         found = val
@@ -645,18 +647,13 @@ class CSSStyleDeclaration(CSS2Properties, cssutils.util.Base2):
 
         if newp.wellformed:
             if replace:
-                # check if update
-                nname = self._normalize(name)
-                properties = self.getProperties(name, all=(not normalize))
-                for property in reversed(properties):
-                    if normalize and property.name == nname:
-                        property.propertyValue = newp.propertyValue.cssText
-                        property.priority = newp.priority
-                        return
-                    elif property.literalname == name:
-                        property.propertyValue = newp.propertyValue.cssText
-                        property.priority = newp.priority
-                        return
+                # check if update: of the effective property (for the
+                # literal name if not normalize)
+                property = self.getProperty(name, normalize)
+                if property is not None:
+                    property.propertyValue = newp.propertyValue.cssText
+                    property.priority = newp.priority
+                    return
 
             # not yet set or forced omit replace
             newp.parent = self
